@@ -5,6 +5,7 @@ use vstd::prelude::*;
 verus! {
 //@ include prelude/logcrate.rs
 //@ include prelude/strings.rs
+//@ include prelude/combinators.rs
 
 #[verifier::external_type_specification]
 #[verifier::external_body]
@@ -16,6 +17,52 @@ pub mod log_specification {
     use log::LevelFilter;
     use regex::Regex;
     broadcast use group_level_axioms, group_pat_seq;
+
+    /// the length of a string in bytes (UTF-8): `String::len`. Trusted facts: a proper prefix is shorter in bytes too.
+    pub uninterp spec fn byte_len(s: Seq<char>) -> nat;
+    pub assume_specification[ String::len ](s: &String) -> (r: usize)
+        ensures r == byte_len(s@);
+    pub broadcast axiom fn ax_byte_len_prefix(a: Seq<char>, b: Seq<char>)
+        requires is_prefix_chars(a, b), a.len() < b.len(),
+        ensures #[trigger] byte_len(a) < #[trigger] byte_len(b);
+    pub broadcast axiom fn ax_byte_len_empty(a: Seq<char>)
+        ensures (#[trigger] byte_len(a) == 0) == (a.len() == 0);
+    /// `<[T]>::sort_by(f)`: a permutation that is ordered by f
+    pub open spec fn not_greater<T, F: FnMut(&T, &T) -> core::cmp::Ordering>(f: F, a: T, b: T) -> bool {
+        exists|o: core::cmp::Ordering| #[trigger] f.ensures((&a, &b), o) && !(o is Greater)
+    }
+    pub assume_specification<T, F: FnMut(&T, &T) -> core::cmp::Ordering>[ <[T]>::sort_by ](v: &mut [T], f: F)
+        requires forall|a: T, b: T| #[trigger] f.requires((&a, &b)),
+        ensures final(v)@.to_multiset() == old(v)@.to_multiset(),
+            forall|i: int, j: int| 0 <= i < j < final(v)@.len() ==> not_greater(f, #[trigger] final(v)@[i], #[trigger] final(v)@[j]);
+
+    /// R17 SHIMS for `v.iter().map(f).max()` / `.min()` on level filters: the greatest / least value f yields (None: no element)
+    pub open spec fn yields_below<T, F: Fn(&T) -> log::LevelFilter>(f: F, x: T, r: Option<log::LevelFilter>) -> bool {
+        exists|y: log::LevelFilter| #[trigger] f.ensures((&x,), y) && r is Some && filter_num(y) <= filter_num(r->Some_0)
+    }
+    pub open spec fn yields_above<T, F: Fn(&T) -> log::LevelFilter>(f: F, x: T, r: Option<log::LevelFilter>) -> bool {
+        exists|y: log::LevelFilter| #[trigger] f.ensures((&x,), y) && r is Some && filter_num(r->Some_0) <= filter_num(y)
+    }
+    pub trait VMaxMap<T>: vstd::view::View<V = Seq<T>> {
+        fn vmax_map<F: Fn(&T) -> log::LevelFilter>(&self, f: F) -> (r: Option<log::LevelFilter>)
+            requires forall|i: int| 0 <= i < self@.len() ==> #[trigger] f.requires((&self@[i],)),
+            ensures
+                (r is None) == (self@.len() == 0),
+                forall|i: int| 0 <= i < self@.len() ==> yields_below(f, #[trigger] self@[i], r),
+                r is Some ==> exists|i: int| 0 <= i < self@.len() && #[trigger] f.ensures((&self@[i],), r->Some_0);
+        fn vmin_map<F: Fn(&T) -> log::LevelFilter>(&self, f: F) -> (r: Option<log::LevelFilter>)
+            requires forall|i: int| 0 <= i < self@.len() ==> #[trigger] f.requires((&self@[i],)),
+            ensures
+                (r is None) == (self@.len() == 0),
+                forall|i: int| 0 <= i < self@.len() ==> yields_above(f, #[trigger] self@[i], r),
+                r is Some ==> exists|i: int| 0 <= i < self@.len() && #[trigger] f.ensures((&self@[i],), r->Some_0);
+    }
+    impl<T> VMaxMap<T> for Vec<T> {
+        #[verifier::external_body]
+        fn vmax_map<F: Fn(&T) -> log::LevelFilter>(&self, f: F) -> (r: Option<log::LevelFilter>) { self.iter().map(f).max() }
+        #[verifier::external_body]
+        fn vmin_map<F: Fn(&T) -> log::LevelFilter>(&self, f: F) -> (r: Option<log::LevelFilter>) { self.iter().map(f).min() }
+    }
 
     //@ item src/log_specification.rs struct LogSpecification
     //@   dropattr #[derive
@@ -44,9 +91,11 @@ pub mod log_specification {
         else if mf_matches(mfs[i], target) { Some(i) }
         else { first_match(mfs, i + 1, target) }
     }
-    /// the list invariant every constructor establishes through level_sort (Kani, bounded): descending name length
+    /// the length in bytes of an entry's name (0: the default entry): what level_sort sorts by
+    pub open spec fn mf_blen(mf: ModuleFilter) -> nat { match mf.module_name { Some(s) => byte_len(s@), None => 0 } }
+    /// the list invariant every constructor establishes through level_sort (proved below): descending name length in bytes
     pub open spec fn sorted_desc_len(mfs: Seq<ModuleFilter>) -> bool {
-        forall|i: int, j: int| 0 <= i < j < mfs.len() ==> mf_len(mfs[i]) >= mf_len(mfs[j])
+        forall|i: int, j: int| 0 <= i < j < mfs.len() ==> mf_blen(#[trigger] mfs[i]) >= mf_blen(#[trigger] mfs[j])
     }
     pub open spec fn names_nonempty(mfs: Seq<ModuleFilter>) -> bool {
         forall|i: int| 0 <= i < mfs.len() && mfs[i].module_name is Some ==> mf_len(mfs[i]) > 0
@@ -87,10 +136,56 @@ pub mod log_specification {
             },
     {
         lemma_first_match(mfs, 0, level, target);
+        match first_match(mfs, 0, target) {
+            Some(j) => {
+                if mfs[j].module_name is Some {
+                    assert forall|k: int| named_match(mfs, k, target) implies mf_len(mfs[k]) <= mf_len(mfs[j]) by {
+                        if mf_len(mfs[k]) > mf_len(mfs[j]) {
+                            // no entry before j applies, so k > j and the list order gives blen(j) >= blen(k);
+                            // both names are prefixes of the target, so the shorter is a proper prefix of the longer
+                            let a = mfs[j].module_name->Some_0@;
+                            let b = mfs[k].module_name->Some_0@;
+                            assert(is_prefix_chars(a, b));
+                            ax_byte_len_prefix(a, b);
+                            assert(mf_blen(mfs[j]) >= mf_blen(mfs[k]));
+                        }
+                    }
+                } else {
+                    assert forall|k: int| !named_match(mfs, k, target) by {
+                        if named_match(mfs, k, target) {
+                            assert(mf_blen(mfs[j]) >= mf_blen(mfs[k]));
+                            ax_byte_len_empty(mfs[k].module_name->Some_0@);
+                        }
+                    }
+                }
+            },
+            None => {},
+        }
     }
 
+    /// R9: `impl LevelSort for Vec<ModuleFilter> { fn level_sort }` is emitted as the method of this local trait (contracts on
+    /// trait impls must be declared in the trait)
+    pub trait LevelSort: Sized + vstd::view::View<V = Seq<ModuleFilter>> {
+        fn level_sort(self) -> (r: Vec<ModuleFilter>)
+            ensures
+                sorted_desc_len(r@), //@label level_sort.post.sorted C02
+                r@.to_multiset() == self@.to_multiset(), //@label level_sort.post.permutation C02
+        ;
+    }
+    impl LevelSort for Vec<ModuleFilter> {
+    //@ fn src/log_specification.rs impl LevelSort for Vec<ModuleFilter> / fn level_sort
+    //@   props C02
+    //@   rule R10b 1
+    //@   rule R18 2
+    //@   closure ~b_len.cmp(&a_len) ## sig |a: &ModuleFilter, b: &ModuleFilter| -> (o: core::cmp::Ordering)
+    //@   closure ~b_len.cmp(&a_len) ## ens (o is Greater) == (mf_blen(*b) > mf_blen(*a))
+    }
     impl LogSpecification {
         pub closed spec fn mfs(&self) -> Seq<ModuleFilter> { self.module_filters@ }
+        /// no entry's filter is above r
+        pub closed spec fn all_below(&self, r: log::LevelFilter) -> bool {
+            forall|i: int| 0 <= i < self.module_filters@.len() ==> filter_num((#[trigger] self.module_filters@[i]).level_filter) <= filter_num(r)
+        }
         pub closed spec fn tf(&self) -> Option<Box<Regex>> { self.textfilter }
 
     //@ fn src/log_specification.rs impl LogSpecification / fn enabled
@@ -101,6 +196,14 @@ pub mod log_specification {
     //@   loop 1 inv it.seq().len() == self.module_filters@.len() && forall|k: int| 0 <= k < it.seq().len() ==> *it.seq()[k] == self.module_filters@[k]
     //@   ens[enabled.post] r == spec_enabled_from(self.mfs(), 0, level, writing_module@)
     //@   canary
+    //@ fn src/log_specification.rs impl LogSpecification / fn max_level
+    //@   ret r
+    //@   props C02
+    //@   rule R17 1
+    //@   closure ~d.level_filter ## sig |d: &ModuleFilter| -> (r: log::LevelFilter)
+    //@   closure ~d.level_filter ## ens r == d.level_filter
+    //@   ens[max_level.post.upper] self.all_below(r)
+    //@   ens[max_level.post.attained] if self.mfs().len() == 0 { r == log::LevelFilter::Off } else { exists|i: int| 0 <= i < self.mfs().len() && (#[trigger] self.mfs()[i]).level_filter == r }
     //@ fn src/log_specification.rs impl LogSpecification / fn update_from
     //@   props C05,C02
     //@   ens[update_from.post] final(self).mfs() == other.mfs() && final(self).tf() == other.tf()
